@@ -258,6 +258,7 @@ class Real:
         assert len(self.code2slot) == len(self.KEYS)
         self.base_index = {id(fn): k for k, fn in enumerate(self.BASE.values())}
         self.wrapper_codes = {}
+        self.shape_error = None
         for fac, kind in (
             ("_init_wrapper", "init"),
             ("_setter_wrapper", "setter"),
@@ -266,7 +267,14 @@ class Real:
         ):
             f = getattr(_wrappers, fac)
             inner = [c for c in f.__code__.co_consts if hasattr(c, "co_name") and c.co_name == "wrapper"]
-            assert len(inner) == 1, fac
+            if len(inner) != 1:
+                # the factory has no closure of its own named `wrapper` (e.g. it delegates to another factory): the
+                # wrappers it installs are then classified by the factory that really builds them; a difference from
+                # the model's kind shows up as a broken correspondence in the slot probes, not as a harness crash
+                self.shape_error = (f"{fac} has {len(inner)} inner closures named `wrapper` (expected 1): the harness "
+                                    "identifies instrumented calls by the code objects of the four wrapper factories and "
+                                    "cannot do so for this shape of _wrappers.py")
+                continue
             self.wrapper_codes[inner[0]] = kind
         # the classes whose attributes are patched, and the property objects' other parts
         self.classes = []
@@ -2818,9 +2826,18 @@ def check_slot_table(ctx) -> None:
     ctx.case(["slot-table"], sample={"slots": len(model)}, stream="slot-table")
     if ans.get("n_meta") != len(model) or len(model) != len(R.KEYS):
         ctx.disagree("slot table: number of slots", "slot-table", [ans.get("n_meta"), len(model)], len(R.KEYS))
-    src = _src_table(R)
+    try:
+        src = _src_table(R)
+    except Exception as e:  # noqa: BLE001
+        # the SHAPE of _wrappers.py changed (e.g. get_original_methods / restore_ir_classes driven by a table instead of
+        # a dict literal and a list of assignments): the source-level reading (a) does not apply; the dynamic
+        # comparisons (b) which class attributes change on __enter__ / are restored and (c) the behaviour of every
+        # installed wrapper still tie the slot table to the code
+        src = None
+        ctx.count("slot_table_source_shape_unrecognised")
+        ctx.notes.append(f"slot table: source shape of _wrappers.py not recognised ({type(e).__name__}); dynamic comparisons only")
     # (a) the three functions of the source agree with each other and with the model, entry by entry, in order
-    for i, key in enumerate(R.KEYS):
+    for i, key in enumerate(R.KEYS if src is not None else []):
         m = model[i] if i < len(model) else {}
         o = src["orig"][i] if i < len(src["orig"]) else [None, []]
         wr = src["wrap"][i] if i < len(src["wrap"]) else {}
@@ -2842,7 +2859,7 @@ def check_slot_table(ctx) -> None:
             real_row["key"] = [key, o[0]]
         if real_row != model_row:
             ctx.disagree(f"slot table entry {i} ({key}): model != source of _wrappers.py", "slot-table", model_row, real_row)
-    for name in ("orig", "wrap", "restore"):
+    for name in (("orig", "wrap", "restore") if src is not None else ()):
         if len(src[name]) != len(R.KEYS):
             ctx.disagree(f"slot table: {name} has {len(src[name])} entries, the table {len(R.KEYS)} (a slot on one side only)",
                          "slot-table", len(model), [r if isinstance(r, list) else [r.get("cls"), r.get("attr")] for r in src[name]][-3:])
@@ -3685,6 +3702,14 @@ def run(ctx: Ctx) -> None:
         "canonical history; non-trivial when it has at least one operation / event"
     )
     R = Real.get()
+    if R.shape_error:
+        # The tracer behind every stream and oracle of this check recognises an instrumented call by the code object of
+        # the factory closure that wraps it.  With an unrecognised shape of _wrappers.py it would miscount calls and
+        # report FALSE failing inputs, so nothing is run: the correspondence is broken (the property is no longer
+        # shown), which is what is reported - without a failing input.
+        ctx.case(["shape-error"], sample={"shape_error": R.shape_error}, stream="shape-error")
+        ctx.disagree("journaling wrappers: " + R.shape_error, "wrapper-factories", "4 factories with one `wrapper` closure each", R.shape_error)
+        return
     check_slots(ctx)
     check_slot_table(ctx)
     check_entry_shape(ctx)
